@@ -8,6 +8,7 @@ package gnmi
 
 import (
 	"context"
+	"time"
 
 	"github.com/onosproject/onos-api/go/onos/config/admin"
 	configapi "github.com/onosproject/onos-api/go/onos/config/v2"
@@ -125,9 +126,26 @@ func (s *vTxStore) Watch(ctx context.Context, ch chan<- configapi.TransactionEve
 			}
 			ch <- ev
 		}
+		if vCloseAfter {
+			close(ch) // the store closes the channel once the caller's context is cancelled / its deadline passed
+		}
 	}()
 	return nil
 }
+
+// vCloseAfter: the watch channel is closed after the scripted events (the request context ended)
+var vCloseAfter bool
+
+// vEndedCtx is a request context that has ended (cancelled by the client or past its deadline)
+type vEndedCtx struct{}
+
+func (c *vEndedCtx) Deadline() (time.Time, bool) { return time.Time{}, false }
+func (c *vEndedCtx) Done() <-chan struct{}       { return nil }
+func (c *vEndedCtx) Err() error                  { return vErrEnded() }
+
+// (a function, not a package variable: package initialisers are not run by the engine)
+func vErrEnded() error                                 { return errors.NewCanceled("context canceled") }
+func (c *vEndedCtx) Value(key interface{}) interface{} { return nil }
 
 // ---- configuration store: t1's configuration, empty or populated
 
